@@ -10,7 +10,7 @@ import json, os
 import vlib
 from props import wirelib as W
 
-SQLS = ["Begin", "Commit", "Rollback", "Select", "SetG", "Prepare", "Fail", "CopyIn"]
+SQLS = ["Begin", "Commit", "Rollback", "Select", "SetG", "Prepare", "Fail", "CopyIn", "DeallocAll"]
 COQ_FILES = ["Session/Model.v", "Session/Proofs.v", "Session/Obs.v", "Session/Props.v"]
 
 
@@ -77,13 +77,16 @@ class Gen:
         r = self.r
         if r.random() < 0.18:
             # a transaction-ending statement followed by session-state changing ones in the SAME query
-            return [r.choice(["Commit", "Rollback"])] + [r.choice(["SetG", "Prepare", "Select"]) for _ in range(r.choice([1, 1, 2]))]
+            return [r.choice(["Commit", "Rollback"])] + [r.choice(["SetG", "Prepare", "Select", "DeallocAll"]) for _ in range(r.choice([1, 1, 2]))]
+        if r.random() < 0.10:
+            # session state, then the client's own DEALLOCATE ALL (it drops statements, not GUCs / role)
+            return [r.choice(["SetG", "Prepare", "SetG"]), "DeallocAll"] + ([r.choice(["SetG", "Select", "Prepare"])] if r.random() < 0.4 else [])
         if r.random() < 0.08:
             return ["Begin", r.choice(["SetG", "Prepare", "Fail"]), r.choice(["Commit", "Rollback"])]
         k = r.choice([1, 1, 1, 2, 2, 3])
         ss = []
         for _ in range(k):
-            ss.append(r.choice(["Begin", "Commit", "Rollback", "Select", "Select", "SetG", "Prepare", "Fail", "CopyIn"]))
+            ss.append(r.choice(["Begin", "Commit", "Rollback", "Select", "Select", "SetG", "Prepare", "Fail", "CopyIn", "DeallocAll"]))
         # CopyIn only as the last statement of a message
         if "CopyIn" in ss[:-1]:
             ss = [s for s in ss[:-1] if s != "CopyIn"] + ["CopyIn"]
@@ -129,6 +132,10 @@ class Gen:
                 self.leave_inner(c, "gone")
             return
         k = r.random()
+        if ph == "inner" and self.txn.get(c) in ("T", "E") and r.random() < 0.07:
+            # a stray CopyDone / CopyFail while the server is NOT in COPY, inside an open transaction: dropped, nothing changes
+            self.ops.append(("StrayCopy", c, r.choice(["c", "f"])))
+            return
         if k < 0.55:
             ss = self.rand_stmts(c)
             t, cp = self.stmts_effect(c, ss)
@@ -193,6 +200,9 @@ def _directed_base():
     T, F = True, False
     return [
         ([("Connect", 1, F), ("Connect", 2, F), ("Query", 1, ["Begin"]), ("PanicMsg", 1), ("Query", 2, ["Select"])], 1, F, F),
+        ([("Connect", 1, F), ("Connect", 2, F), ("Query", 1, ["SetG", "DeallocAll"]), ("Query", 2, ["Select"])], 1, F, F),
+        ([("Connect", 1, F), ("Connect", 2, F), ("Query", 1, ["Begin"]), ("StrayCopy", 1, "c"), ("Query", 2, ["Select"]), ("Query", 1, ["Select"]), ("StrayCopy", 1, "f"), ("Query", 1, ["Commit"]), ("Query", 2, ["Select"])], 2, F, F),
+        ([("Connect", 1, F), ("Connect", 2, F), ("Query", 1, ["Prepare"]), ("Query", 1, ["SetG"]), ("Query", 1, ["DeallocAll"]), ("Query", 2, ["Select"])], 1, F, F),
         ([("Connect", 1, F), ("Connect", 2, F), ("Query", 1, ["Begin"]), ("Query", 1, ["Commit", "SetG"]), ("Query", 2, ["Select"])], 1, F, F),
         ([("Connect", 1, F), ("Connect", 2, F), ("Query", 1, ["Prepare", "CopyIn"]), ("Drop", 1), ("Query", 2, ["Select"])], 1, F, F),
         ([("Connect", 1, F), ("Connect", 2, F), ("Query", 1, ["Begin"]), ("BadMsg", 1), ("Query", 2, ["Select"])], 1, F, T),
@@ -245,6 +255,8 @@ def coq_op(o):
         return "Query %d %s" % (o[1], sl(o[2]))
     if k == "Batch":
         return "Batch %d %s %s" % (o[1], b(o[2]), o[3])
+    if k == "StrayCopy":
+        return "%s %d" % ("CopyDone" if o[2] == "c" else "CopyFail", o[1])
     if k in ("CopyDone", "CopyFail", "Terminate", "Drop", "BadMsg", "PanicMsg", "IdleTimeout"):
         return "%s %d" % (k, o[1])
     if k in ("StmtTimeout", "ServerDies", "WriteFail"):
@@ -260,7 +272,7 @@ def model_observe(cases):
 
 # ----------------------------------------------------------------------------- wire side
 SQLTXT = {"Begin": "BEGIN", "Commit": "COMMIT", "Rollback": "ROLLBACK", "Select": "SELECT 1", "SetG": "SET work_mem TO 7",
-          "Fail": "SELECT 1 /*mock:error*/", "CopyIn": "COPY t FROM STDIN"}
+          "Fail": "SELECT 1 /*mock:error*/", "CopyIn": "COPY t FROM STDIN", "DeallocAll": "DEALLOCATE ALL"}
 
 
 def scenario(ops, ps, sm, caching, cc=True, inuse=None):
@@ -317,6 +329,9 @@ def scenario(ops, ps, sm, caching, cc=True, inuse=None):
         elif k == "CopyFail":
             steps.append({"op": "send", "c": cn, "msgs": [{"t": "f", "msg": "no"}]})
             steps.append({"op": "recv", "c": cn, "until": "Z", "timeout_ms": 6000})
+        elif k == "StrayCopy":
+            steps.append({"op": "send", "c": cn, "msgs": [{"t": "c"}] if o[2] == "c" else [{"t": "f", "msg": "no"}]})
+            steps.append({"op": "recv", "c": cn, "until": "", "count": 0, "timeout_ms": 250, "label": "stray"})
         elif k == "Terminate":
             steps.append({"op": "send", "c": cn, "msgs": [{"t": "X"}]})
             steps.append({"op": "sleep", "ms": 60})
